@@ -84,6 +84,26 @@ func positions(k int, full bool, rng *sm64) []int {
 
 func cloneH(hs []H) []H { return append([]H{}, hs...) }
 
+// twice presents the same hash lists to a verifier two times. The lists are the caller's: a verification must leave
+// them as they were (a host checks the proof it built before sending it, a proxy verifies and forwards), and the second
+// presentation of the very same lists must be judged like the first.
+func twice(prefix, desc string, lists [][]H, verify func(lists [][]H) bool) error {
+	mine := make([][]H, len(lists))
+	for i := range lists {
+		mine[i] = cloneH(lists[i])
+	}
+	first := verify(mine)
+	for i := range lists {
+		if !eqHashes(mine[i], lists[i]) {
+			return stats.Failf(prefix+"/verifier-modifies-argument", "%s: the verifier changed hash list #%d it was given: %s became %s", desc, i, showHashes(lists[i]), showHashes(mine[i]))
+		}
+	}
+	if second := verify(mine); second != first {
+		return stats.Failf(prefix+"/verifier-modifies-argument", "%s: the same lists presented a second time are judged %v, the first time %v", desc, second, first)
+	}
+	return nil
+}
+
 func without(hs []H, i int) []H {
 	out := make([]H, 0, len(hs))
 	out = append(out, hs[:i]...)
@@ -202,6 +222,11 @@ func checkRange(c ProofCase) error {
 	}
 	if a, b := verify(want, rr, start, end, root); !a || !b {
 		return fail("complete", "honest proof rejected (v2 verifier %v, v4 verifier %v)", a, b)
+	}
+	if err := twice("C16/range", desc, [][]H{want, rr}, func(l [][]H) bool {
+		return rhp2.VerifySectorRangeProof(l[0], l[1], us, uint64(end), un, root) && rhp4.VerifySectorRootsProof(l[0], l[1], un, us, uint64(end), root)
+	}); err != nil {
+		return err
 	}
 
 	// soundness: single corruptions, count held true, preconditions respected
@@ -338,6 +363,15 @@ func checkAppend(c ProofCase) error {
 	}
 	if batch == 1 && !v2(want, appended[0], oldRoot, newRoot) {
 		return fail("complete", "rhp2.VerifyAppendProof rejected the honest proof")
+	}
+	if err := twice("C16/append", desc, [][]H{want, appended}, func(l [][]H) bool {
+		ok := rhp4.VerifyAppendSectorsProof(un, l[0], l[1], oldRoot, newRoot)
+		if batch == 1 {
+			ok = ok && rhp2.VerifyAppendProof(un, l[0], l[1][0], oldRoot, newRoot)
+		}
+		return ok
+	}); err != nil {
+		return err
 	}
 
 	rng := sm64(c.Seed ^ uint64(n)<<32 ^ uint64(batch))
@@ -533,6 +567,18 @@ func checkDiff(c ProofCase) error {
 	}
 	if !verify(wantTree, wantLeaf, oldRoot, newRoot) {
 		return fail("complete", "honest proof rejected (old %s new %s, touched %v)", short(oldRoot), short(newRoot), touched)
+	}
+	if err := twice("C16/"+c.Kind, desc, [][]H{wantTree, wantLeaf, passRoots}, func(l [][]H) bool {
+		if v4 {
+			return rhp4.VerifyFreeSectorsProof(l[0], l[1], c.Freed, un, oldRoot, newRoot)
+		}
+		var ar []H
+		if passRoots != nil {
+			ar = l[2]
+		}
+		return rhp2.VerifyDiffProof(wactions, un, l[0], l[1], oldRoot, newRoot, ar)
+	}); err != nil {
+		return err
 	}
 
 	rng := sm64(c.Seed ^ uint64(n)<<32 ^ uint64(len(acts)))
